@@ -11,7 +11,24 @@ import vlib
 LEVEL = "proof"
 
 THEOREMS = [
+    "Mpc.C12_fold_eq_circuit",
     "Mpc.C12_fold_eq_circuit_partial",
+    "Mpc.C12_fold_eq_circuit_wide",
+    "Mpc.C12_fold_wrap_every_width",
+    "Mpc.C12_fold_add_every_width",
+    "Mpc.C12_fold_sub_every_width",
+    "Mpc.C12_fold_mul_every_width",
+    "Mpc.C12_fold_and_every_width",
+    "Mpc.C12_fold_or_every_width",
+    "Mpc.C12_fold_xor_every_width",
+    "Mpc.C12_fold_andnot_every_width",
+    "Mpc.C12_fold_shl_every_width",
+    "Mpc.Fold.fold_wrap_wide",
+    "Mpc.Fold.fold_shl_wide",
+    "Mpc.Fold.fold_neg_wide",
+    "Mpc.Fold.fold_cmp_all",
+    "Mpc.Fold.fold_shr_wide",
+    "Mpc.Fold.fold_div_mod_wide",
     "Mpc.C12_fold_wrap_ops",
     "Mpc.C12_fold_wrap_assignable",
     "Mpc.C12_fold_add",
@@ -40,58 +57,44 @@ THEOREMS = [
 ]
 
 # operator -> mpa method table of Binary.evalConst (T2 fact)
-EXPECT_EVALCONST = [
-    ["BinaryMul", "Mul"], ["BinaryDiv", "Div"], ["BinaryMod", "Mod"], ["BinaryLshift", "Lsh"], ["BinaryRshift", "Rsh"],
-    ["BinaryBand", "And"], ["BinaryBclear", "AndNot"], ["BinaryBor", "Or"], ["BinaryBxor", "Xor"],
-    ["BinaryAdd", "Add"], ["BinarySub", "Sub"],
-]
-EXPECT_CMP = [["BinaryEq", "== 0"], ["BinaryNeq", "!= 0"], ["BinaryLt", "== -1"], ["BinaryLe", "!= 1"],
-              ["BinaryGt", "== 1"], ["BinaryGe", "!= -1"]]
+# Structural facts (T2).  They are SEMANTIC abstractions of the source — call sequences with same-package
+# helpers inlined (gofacts callseq), "no write to .bits", "all three circuit arguments have one width expression",
+# and one behavioural probe — never the literal text of a statement or the function a call happens to sit in.
+# Everything the per-line model correspondence already pins down (Constant's 32/64/n sizing, isSet, the re-widening
+# of shared constants, Cmp's -1/0/1 tests, operand/result wire widths of the large divider) is NOT repeated here.
+MPA_METHODS = ["Mul", "Div", "Mod", "Lsh", "Rsh", "And", "AndNot", "Or", "Xor", "Add", "Sub", "Cmp"]
+EXPECT_EVALCONST_CALLS = ["?.Mul", "?.Div", "?.Mod", "?.Lsh", "?.Rsh", "?.And", "?.AndNot", "?.Or", "?.Xor", "?.Add", "?.Sub"] + \
+    ["?.Cmp"] * 6
+EXPECT_DIVIDER_CALLS = ["?.NewCompiler", "?.NewIDivider", "?.Compile", "?.Compute"]
 
 
-def facts(ctx):
-    body = vlib.strip_go_comments(vlib.go_func_body("compiler/ast/eval.go", r"\(ast \*Binary\) evalConst\(") or "")
-    mpa_part = body[body.find("case *mpa.Int:"):body.find("case string:")]
-    got = re.findall(r"case (Binary\w+):\s*return gen\.Constant\(mpa\.New\(rt\.Bits\)\.(\w+)\(lval,", mpa_part)
-    ctx.fact("evalConst: operator -> mpa method (receiver mpa.New(rt.Bits), result typed rt)", [list(x) for x in got],
-             EXPECT_EVALCONST)
-    got = re.findall(r"case (Binary\w+):\s*return gen\.Constant\(lval\.Cmp\(rval\) (\S+ -?\d)", mpa_part)
-    ctx.fact("evalConst: comparison operators test Cmp's -1/0/1", [list(x) for x in got], EXPECT_CMP)
-    body = vlib.strip_go_comments(vlib.go_func_body("compiler/ast/eval.go", r"\(ast \*Unary\) Eval\(") or "")
-    ctx.fact("Unary.Eval: minus is NewInt(0, Type.Bits).Sub(r, val) typed with the operand type",
-             bool(re.search(r"r := mpa\.NewInt\(0, expr\.Type\.Bits\)\s*return gen\.Constant\(r\.Sub\(r, val\), expr\.Type\)",
-                            body)), True)
+def facts(ctx, meta):
+    ctx.fact("Binary.evalConst: one mpa method per operator, in operator order, six comparisons through Cmp "
+             "(call sequence, helpers inlined)", ctx.callseq("compiler/ast", "Binary.evalConst", MPA_METHODS),
+             EXPECT_EVALCONST_CALLS)
+    ctx.fact("Unary.Eval: unary minus is NewInt(..).Sub(..) wrapped by Generator.Constant (call sequence)",
+             ctx.callseq("compiler/ast", "Unary.Eval", ["NewInt", "Sub", "Constant"]),
+             ["ssa.Generator.Constant", "?.NewInt", "?.Sub", "ssa.Generator.Constant"])
+    for fn in ("Int.Div", "Int.Mod"):
+        ctx.fact("mpa.%s large path: one circuit built with NewIDivider, compiled and computed (call sequence, helpers "
+                 "inlined)" % fn,
+                 ctx.callseq("compiler/mpa", fn, ["NewIDivider", "NewUDivider", "NewCompiler", "Compile", "Compute"]),
+                 EXPECT_DIVIDER_CALLS)
+    ctx.fact("mpa.Int.bin: one circuit, compiled and computed (call sequence)",
+             ctx.callseq("compiler/mpa", "Int.bin", ["NewCompiler", "Compile", "Compute"]),
+             ["?.NewCompiler", "?.Compile", "?.Compute"])
     body = vlib.strip_go_comments(vlib.go_func_body("compiler/mpa/mpint.go", r"\(z \*Int\) Add\(") or "")
-    ctx.fact("mpa.Int.Add small path: setSmall(x+y) at the receiver's width (no `z.bits = ...`)",
-             [bool(re.search(r"if z\.isSmall\(\) \{\s*z\.setSmall\(x\.small\(\) \+ y\.small\(\)\)\s*return z\s*\}", body)),
-              "z.bits =" in body], [True, False])
+    ctx.fact("mpa.Int.Add never assigns the receiver's size (no write to a .bits field)",
+             [bool(body), bool(re.search(r"\.bits\s*(=[^=]|\+=|-=)", body))], [True, False])
     body = vlib.strip_go_comments(vlib.go_func_body("compiler/mpa/mpint.go", r"\(z \*Int\) bin\(") or "")
-    ctx.fact("mpa.Int.bin: both operands and the result have max(x.bits, y.bits, z.bits) wires",
-             [bool(re.search(r"size := max\(max\(x\.bits, y\.bits\), z\.bits\)", body)),
-              [list(x) for x in re.findall(r'newIOArg\("(\w)", types\.TInt, (\w+)\)', body)]],
-             [True, [["x", "size"], ["y", "size"], ["z", "size"]]])
-    body = vlib.strip_go_comments(vlib.go_func_body("compiler/ssa/generator.go", r"\(gen \*Generator\) Constant\(") or "")
-    part = body[body.find("case *mpa.Int:"):body.find("case bool:")]
-    ctx.fact("Generator.Constant(*mpa.Int): 32/64/n sizing, type widened, SetTypeSize(bits)",
-             [bool(re.search(r"minBits = types\.Size\(val\.BitLen\(\)\)\s*if minBits > 64 \{\s*bits = minBits\s*\} else if "
-                             r"minBits > 32 \{\s*bits = 64\s*\} else \{\s*bits = 32\s*\}", part)),
-              bool(re.search(r"if v\.Type\.Bits < bits \{\s*v\.Type\.Bits = bits\s*\}", part)),
-              bool(re.search(r"val\.SetTypeSize\(bits\)", part))], [True, True, True])
-    body = vlib.strip_go_comments(vlib.go_func_body("compiler/ssa/circuitgen.go", r"\(prog \*Program\) Circuit\(") or "")
-    ctx.fact("Program.Circuit: constant operands are re-widened by sign (TInt) / zero extension",
-             bool(re.search(r"if in\.Type\.Type == types\.TInt && len\(w\) > 0 \{\s*pad = w\[len\(w\)-1\]\s*\} else \{\s*"
-                            r"pad = cc\.ZeroWire\(\)", body)), True)
-    ctx.fact("Program.Circuit: an mpa constant used at another width than its allocated wires takes its bits from "
-             "its own value, TInt sign-extended from min(mpa size, Type.Bits) (Model/Fold.lean rewiden)",
-             [bool(re.search(r"if mi, ok := in\.ConstValue\.\(\*mpa\.Int\); ok && in\.Const \{", body)),
-              bool(re.search(r"own := types\.Size\(mi\.TypeSize\(\)\)\s*if own > in\.Type\.Bits \{\s*own = in\.Type\.Bits\s*\}", body)),
-              bool(re.search(r"src := bit\s*if src >= own && in\.Type\.Type == types\.TInt \{\s*src = own - 1\s*\}\s*"
-                             r"if src < own && in\.Bit\(src\) \{\s*cw\[bit\] = cc\.OneWire\(\)\s*\} else \{\s*"
-                             r"cw\[bit\] = cc\.ZeroWire\(\)", body))], [True, True, True])
-    body = vlib.strip_go_comments(vlib.go_func_body("compiler/ssa/value.go", r"isSet\(") or "")
-    ctx.fact("isSet(*mpa.Int): bits at or above BitLen read as 0",
-             bool(re.search(r"case \*mpa\.Int:\s*if bit >= types\.Size\(val\.BitLen\(\)\) \{\s*return false\s*\}\s*"
-                            r"return val\.Bit\(int\(bit\)\) != 0", body)), True)
+    widths = [re.sub(r"\s+", "", w) for w in re.findall(r"newIOArg\(\s*\"\w+\",\s*types\.TInt,\s*(.+?)\),?\s*\n", body)]
+    ctx.fact("mpa.Int.bin: the two operands and the result are declared with one and the same width expression",
+             [len(widths), len(set(widths))], [3, 1])
+    # behavioural probe (harness, exported mpa API): New(128).Div(NewInt(3,2), NewInt(1,4)) is 3 when NewIDivider zero-pads
+    # the 2-wire operand and 15 when it sign-pads it
+    model_pad = re.findall(r"^def idivSignPads : Bool := (\w+)", open(vlib.LEAN + "/MpcVerif/Model/Mpa.lean").read(), flags=re.M)
+    ctx.fact("NewIDivider's operand padding as observed through mpa.Int.Div = Model/Mpa.lean idivSignPads "
+             "(zero = false, sign = true)", (meta or {}).get("idivider_pad"), "sign" if model_pad == ["true"] else "zero")
 
 
 # ---------------------------------------------------------------- failure attribution
@@ -212,11 +215,11 @@ def run(ctx):
     if ctx.tier == "thorough":
         ctx.leanchecker("MpcVerif.Props.C12")
     ctx.build_drv()
-    facts(ctx)
     quick = ctx.tier == "quick"
     if ctx.build_hx():
         ops, out, meta = ctx.run_hx("mpa", 12000 if quick else 120000)
         ctx.absorb_meta(meta)
+        facts(ctx, meta)
         ctx.correspond("exported mpa API (New, NewInt, Parse, SetTypeSize, Add..Xor, Lsh, Rsh, Cmp, Int64, BitLen, Bit, "
                        "Sign, String, Text) vs Model/Mpa.lean", ops, out)
         for line in open(ops, errors="replace"):
@@ -250,7 +253,9 @@ def run(ctx):
         "Model/Fold.lean's circuitOp are tied to the real circuits by the mpa / rt correspondence lines only",
         "operand forms are T(v), T(-v) and -T(v); constants reached through const declarations and untyped-typed mixes "
         "are not generated; name collisions between differently typed constants only by the alias oracle (two constants)",
-        "theorems cover widths 1..64 (small path); widths above 64 are covered by the model correspondence and the oracle only",
+        "theorems cover every width; above 64 bits they are about the large path modelled at the level result = (x op y) "
+        "mod 2^N (adder/subtractor/multiplier/divider circuits and math/big taken at their arithmetic meaning), tied to "
+        "the real code by the mpa API and fold/cret correspondence lines",
     ]
     return ctx.finish(
         "Oracle: for every generated case the constant and the run-time variant of the same MPCL expression are compiled "
